@@ -154,7 +154,7 @@ def gen_parts(rng, native=False, bad_rate=0.0, max_cols=4, max_rows=4, names=Non
         kinds = [rng.choice(kinds_pool or ["text", "onoff", "datetime", "float", "float"]) for _ in range(ncols)]
         cnames = names or rng.sample(NAMES, ncols)
         units = [{"text": "text", "onoff": "onoff", "datetime": "datetime"}.get(k) or rng.choice(UNITS_NUM) for k in kinds]
-        name = table_name or ("t" + str(rng.randint(0, 9)) + rng.choice(["", "_x", "é", ".1"]))
+        name = table_name or ("t" + str(rng.randint(0, 9)) + rng.choice(["", "_x", "é", ".1", "", "", "* ", " ", "*\t"]))
         dests = rng.choice([["all"], ["d1", "d2"], ["a"], ["x", "y", "z"]])
         cols, exp_cols, bad = [], [], []
         for j, k in enumerate(kinds):
